@@ -458,8 +458,8 @@ def encodeTarget (target : Str) : Except Exc Str :=
       | 35 :: f => let rest := f.dropWhile (· != 10); rest == [] || rest == [10]
       | _ => true
     if !fragOk then .error .locationParseError
-    else .ok (encodeInvalidChars path Gen.pathChars ++
-              (match query with | some q => 63 :: encodeInvalidChars q Gen.queryChars | none => []))
+    else .ok (encodeInvalidChars path Gen.wirePathChars ++
+              (match query with | some q => 63 :: encodeInvalidChars q Gen.wireQueryChars | none => []))
   | _ => .error .locationParseError
 
 /-- `_remove_path_dot_segments` -/
@@ -480,8 +480,8 @@ def managerTarget (tail : Str) : Str :=
   let query : Option Str := match r1 with
     | 63 :: q => some (q.takeWhile (· != 35))
     | _ => none
-  let path := if path.isEmpty then path else encodeInvalidChars (removeDotSegments path) Gen.pathChars
-  let query := query.map fun q => if q.isEmpty then q else encodeInvalidChars q Gen.queryChars
+  let path := if path.isEmpty then path else encodeInvalidChars (removeDotSegments path) Gen.wirePathChars
+  let query := query.map fun q => if q.isEmpty then q else encodeInvalidChars q Gen.wireQueryChars
   (if path.isEmpty then [47] else path) ++ (match query with | some q => 63 :: q | none => [])
 
 /-- `HTTPConnectionPool.urlopen` for a target starting with `/` (not `//`): re-encode, then send -/
